@@ -873,11 +873,18 @@ pub struct ClientReplicationStats {
 
 #[cfg(replicon_verif)]
 impl BufferedMutations {
-    /// Returns `(update tick, message tick, messages count)` for each buffered mutate message.
-    pub fn verif_snapshot(&self) -> Vec<(RepliconTick, RepliconTick, usize)> {
+    /// Returns `(update tick, message tick, messages count, remaining body)` for each buffered mutate message.
+    pub fn verif_snapshot(&self) -> Vec<(RepliconTick, RepliconTick, usize, Bytes)> {
         self.0
             .iter()
-            .map(|mutate| (mutate.update_tick, mutate.message_tick, mutate.messages_count))
+            .map(|mutate| {
+                (
+                    mutate.update_tick,
+                    mutate.message_tick,
+                    mutate.messages_count,
+                    mutate.message.clone(),
+                )
+            })
             .collect()
     }
 }
